@@ -280,6 +280,50 @@ def canon(v):
     return v
 
 
+def run_kvs_value_independence(ctx):
+    """what a get returns is the value of the latest set, whatever was done to values handed out earlier: a value
+    obtained from the store is changed in place (Klong Join on a dictionary, element assignment on an array from
+    Python), then the same key is read again through the same store object while the entry is still cached"""
+    from klongpy import KlongInterpreter
+    from klongpy.db.sys_fn_kvs import KeyValueStorage
+    for maxmem in (2 ** 20, 400):
+        root = ctx.mkdtemp()
+        klong = KlongInterpreter()
+        store = KeyValueStorage(root, max_memory=maxmem)
+        klong["kvs"] = store
+        try:
+            for key, lit, mutate in (("d1", ':{["a" 1]}', "dict"), ("l1", "[1 2 3]", "array"), ("n1", "[[1 2] [3 4]]", "array"),
+                                     ("p/d2", ':{["k" [1 2]] ["m" 5]}', "dict"), ("s1", '"abc"', "none")):
+                text = f'kvs,"{key}",,{lit}'
+                case = dict(kind="kvs-value-independence", max=maxmem, program=[text, f'g1::kvs?"{key}"', "<change g1 in place>", f'kvs?"{key}"'])
+                try:
+                    klong(text)
+                    want = canon(klong(lit))
+                    g1 = klong(f'g1::kvs?"{key}"')
+                    if mutate == "dict":
+                        klong('g1,"zz",,99')
+                    elif mutate == "array":
+                        g1 = klong("g1")
+                        try:
+                            g1[0] = 99
+                        except Exception:
+                            pass
+                    g2 = klong(f'kvs?"{key}"')
+                    got = canon(g2)
+                except Exception as e:
+                    ctx.oracle_fail(f"kvs:independence:raises:{type(e).__name__}", case, "the operations return", repr(e))
+                    continue
+                ctx.count(("kvs-indep", maxmem, key), nontrivial=True)
+                ctx.bump("kvs:value-independence")
+                if got != want:
+                    ctx.oracle_fail("kvs:get-latest-set", case, repr(want), repr(got))
+                elif mutate != "none" and g2 is klong("g1"):
+                    ctx.oracle_fail("kvs:get-returns-shared-object", case, "a value of its own", "the object handed out by the earlier get")
+        finally:
+            store.cache.executor.shutdown(wait=True)
+            shutil.rmtree(root, ignore_errors=True)
+
+
 def run_klong_kvs(ctx, drv, nseq, length):
     """`d,k,v` / `d?k` through the interpreter over a store with a small cache limit"""
     from klongpy import KlongInterpreter
@@ -522,6 +566,7 @@ def run(ctx):
             keys = ctx.rng.choice([KEYS_FLAT, KEYS_NESTED, KEYS_FLAT[:2], KEYS_FLAT + KEYS_NESTED])
             ops = gen_ops(ctx.rng, ctx.rng.randrange(2, 14 if quick else 40), keys, maxmem)
             run_cache_sequence(ctx, ops, maxmem, drv, "fcache")
+        run_kvs_value_independence(ctx)
         run_klong_kvs(ctx, drv, 80 if quick else 500, 12 if quick else 40)
         run_tables(ctx, drv, 80 if quick else 500)
     finally:
